@@ -187,6 +187,14 @@ fn leaf_sweep(run: &Run) {
     run.exhaustive("boundary leaves (30 reals, 7 ints, all 256 string bytes, names with every code point U+0001-U+00FF + plane samples) x 4 placements", true);
 }
 
+/// Re-run a stored witness (choice tape + generator parameters) against the current tree.
+pub fn replay(prefix: &str, tape: &[u32], params: &Value) -> Option<Option<(String, String)>> {
+    if prefix != "tree" { return None; }
+    let mut s = Src::replay(tape);
+    let c = gen_case(&mut s, params["max_depth"].as_u64()? as _);
+    Some(oracle(&c))
+}
+
 pub fn run(run: &Run) {
     run.rule("Primitive trees (depth <= 16 incl. deep chains, strings over all bytes, names over Unicode scalar values, boundary/random-bit finite reals, i32 boundaries, references, streams via Stream::new) serialised by the real writer and re-read: (i) as an indirect object framed by Storage::save (found in PdfBuilder output, parse_indirect_object), (ii) dictionary value, (iii) array element between integers (Primitive::serialize + parser::parse), (iv) operand of scn in serialize_ops/parse_ops; equality modulo Integer≡Number. distinct_nontrivial = distinct (value, placement)");
     run.assume("Integer(n) and Number(x) are identified when numerically equal; dictionary order ignored; stream /Length ignored");
@@ -198,7 +206,7 @@ pub fn run(run: &Run) {
         run.eval();
         let md = if i % 5 == 0 { 8 } else { 3 };
         check_case(run, "C04", "tree", s, &|s| gen_case(s, md), &oracle, &witness,
-            &|c, s| { run.nontrivial(fnv(format!("{:?}", c).as_bytes())); run.count(&format!("placement:{}", PLACEMENTS[c.placement as usize])); for l in &s.labels { run.count(&format!("label:{}", l)); } if i < 6 { run.sample(witness(c)); } });
+            &|c, s| { run.nontrivial(fnv(format!("{:?}", c).as_bytes())); run.count(&format!("placement:{}", PLACEMENTS[c.placement as usize])); for l in &s.labels { run.count(&format!("label:{}", l)); } if i < 6 { run.sample(witness(c)); } }, json!({"max_depth": md}));
     });
     // thorough: the same quick workload once more under the AddressSanitizer build (memory errors in the library or its dependencies)
     if !run.quick() { crate::lanes::asan_rerun(run); }
